@@ -24,7 +24,8 @@ META = {
             "the three match tables, the struct field types and the lib-data function are re-extracted from the source "
             "on every run and proved equal to the tables. Font::load, validate and save are run on thousands of "
             "generated trees (every attribute alone and in combination with distinct values, codes -5..300 "
-            "exhaustively, width names and near misses, numeric classes) and compared field by field with the model.",
+            "exhaustively, width names and near misses, numeric classes; every tree with a lib.plist also under five other "
+            "DataRequests, the result proved and observed to be independent of the request) and compared field by field with the model.",
     "note": "Trusted: Coq kernel + VM; lib/anchors_c14.py (regex translator); the harness's tree writer and field dump; "
             "plist/serde (typed readers are modelled and exercised, not proved). 'passes validation' is a theorem about C13's "
             "validator model fi_validate / fi_spec on the projection of the converted info (C14_result_v3_valid), 'can be saved' "
@@ -267,7 +268,7 @@ def run(ctx, known, built):
     HARD = ("format_version_is_3", "validate_ok", "save_ok", "saved_metainfo_says_3", "reload_ok")
     notes = {}
     for m in meta:
-        inp = {k: m[k] for k in ("label", "version", "rot", "fontinfo", "lib", "features_fea")}
+        inp = {k: m[k] for k in ("label", "version", "rot", "request", "request_name", "fontinfo", "lib", "features_fea")}
         if m.get("panic") is not None:
             ctx.violations.append({"input": inp, "index": m["index"], "implementation": "panic: %s" % m["panic"],
                                    "demand": "Font::load returns a font or an error"})
@@ -288,7 +289,7 @@ def run(ctx, known, built):
             f.write("From Coq Require Import String.\nRequire Import Norad.Run.RunBase Norad.Run.C14.\n"
                     "Open Scope string_scope. Open Scope Z_scope.\n"
                     "Set Printing Width 1000000. Set Printing Depth 10000000.\n")
-            f.write("Definition cs : list (ufo * tm) := [\n" + ";\n".join(lines[b:b + SHARD]) + "\n].\n")
+            f.write("Definition cs : list (case * tm) := [\n" + ";\n".join(lines[b:b + SHARD]) + "\n].\n")
             f.write("Eval vm_compute in mismatches run_model cs.\n")
             f.write("Eval vm_compute in mismatches run_spec cs.\n")
             f.write("Eval vm_compute in map (fun b : bool => if b then 1 else 0) (typed_flags cs).\n")
@@ -325,7 +326,7 @@ def run(ctx, known, built):
         def rec(idx, mt, side):
             m = meta[b + idx]
             _, obs = split_case_line(lines[b + idx])
-            inp = {k: m[k] for k in ("label", "version", "rot", "fontinfo", "lib", "features_fea")}
+            inp = {k: m[k] for k in ("label", "version", "rot", "request", "request_name", "fontinfo", "lib", "features_fea")}
             return {"index": b + idx, "input": inp, side: describe(to_tree(mt), keys),
                     "implementation": describe(parse_tm_text(obs), keys)}
         for (idx, mt) in dm:
@@ -358,7 +359,7 @@ def run(ctx, known, built):
     distinct = set()
     nontrivial = 0
     for m in meta:
-        h = hashlib.sha256(json.dumps([m["version"], m["fontinfo"], m["lib"], m["features_fea"]], sort_keys=True).encode()).hexdigest()
+        h = hashlib.sha256(json.dumps([m["version"], m["request"], m["fontinfo"], m["lib"], m["features_fea"]], sort_keys=True).encode()).hexdigest()
         if h in distinct:
             continue
         distinct.add(h)
@@ -383,7 +384,7 @@ def run(ctx, known, built):
     })
     for m in meta[:1] + [x for x in meta if x["label"] == "robofab"][:1] + [x for x in meta if x["label"] == "enum-combination"][:1]:
         _, obs = split_case_line(lines[m["index"]])
-        ctx.samples.append({"label": m["label"], "version": m["version"], "fontinfo": m["fontinfo"], "lib": m["lib"],
+        ctx.samples.append({"label": m["label"], "version": m["version"], "request": m["request_name"], "fontinfo": m["fontinfo"], "lib": m["lib"],
                             "implementation": describe(parse_tm_text(obs), keys)})
 
 
